@@ -1173,7 +1173,7 @@ func l1Sem(raw []byte, t *l1Intern) (out interface{}) {
 			e := map[string]interface{}{}
 			id, err := a.ApplicationID()
 			e["id"] = l1Acc(err, t.id("app:"+id))
-			ctx, err := a.PFDContext()
+			ctx, err := allPFDContents(a)
 			if err != nil {
 				e["ctx"] = "err"
 			} else {
